@@ -15,6 +15,12 @@ import Mahotas.Proofs.C19HaralickFeat
 import Mahotas.Proofs.C19CoocData
 import Mahotas.Proofs.C19Entropy
 import Mahotas.Proofs.C19IntegralRing
+import Mahotas.Proofs.C19Machine
+import Mahotas.Proofs.C19Tas
+import Mahotas.Proofs.C19TasNorm
+import Mahotas.Proofs.C19HaralickQ
+import Mahotas.Proofs.C19LbpSample
+import Mahotas.Proofs.C19HaralickMean
 import Mathlib.Data.ZMod.Basic
 namespace Mahotas.C19
 open Mahotas Mahotas.Generated
@@ -438,6 +444,107 @@ theorem C19_moments_def_any_ring {R : Type} [CommRing R] (cast : Nat → R) (row
     (c0 c1 : R) : moments cast rows p0 p1 c0 c1 = momentsSpec cast rows p0 p1 c0 c1 :=
   Gen.moments_eq_spec cast rows p0 p1 c0 c1
 
+/-! ## Round 4 (integer dtypes of `integral`, `moments` options, radial polynomial) -/
+
+/-- **C19-T4 (integral image in the dtype's own arithmetic).** `integralMachine bits signed` is the C++ template
+`integral<T>` for an integer `T` of `bits ≥ 1` bits run on machine integers (`MInt`: **every** `+` and `-` of the in-place
+recurrence is reduced into the dtype's range — unsigned modulo `2^bits`, signed two's complement). For every rectangular
+image of integers (each first converted to the dtype, as `astype` does): the shape is kept, every entry is the **exact**
+two-dimensional prefix sum `Σ_{a≤i} Σ_{b≤j} f[a][b]` (taken in `ℤ`) reduced once into the range — intermediate overflows
+leave no trace — and the entries lie in `[0, 2^bits)` resp. `[-2^(bits-1), 2^(bits-1))`. This is what the driver prints as
+`machine=` and the check compares the real `surf.integral(f, dtype=<integer dtype>)` with. -/
+theorem C19_integral_machine_arithmetic (bits : Nat) (signed : Bool) (hb : 0 < bits) (w : Nat)
+    (rows : List (List Int)) (hw : ∀ r ∈ rows, r.length = w) :
+    integralMachine bits signed w rows = (integral w rows).map (fun r => r.map (wrapTo bits signed)) ∧
+    (integralMachine bits signed w rows).length = rows.length ∧
+    (∀ i j, i < rows.length → j < w →
+      ((integralMachine bits signed w rows).getD i []).getD j 0 = wrapTo bits signed (prefix2 rows i j)) ∧
+    (∀ x : Int, 0 ≤ wrapTo bits false x ∧ wrapTo bits false x < 2 ^ bits) ∧
+    (∀ x : Int, -(2 ^ (bits - 1)) ≤ wrapTo bits true x ∧ wrapTo bits true x < 2 ^ (bits - 1)) ∧
+    (∀ x y : Int, x % 2 ^ bits = y % 2 ^ bits → wrapTo bits signed x = wrapTo bits signed y) ∧
+    (∀ x : Int, wrapTo bits signed x % 2 ^ bits = x % 2 ^ bits) := by
+  refine ⟨Machine.integralMachine_eq bits signed hb w rows, ?_,
+    fun i j hi hj => Machine.integralMachine_getD bits signed hb w rows hw i j hi hj,
+    Machine.wrapTo_range_unsigned bits, Machine.wrapTo_range_signed bits hb,
+    fun x y h => Machine.wrapTo_congr bits signed h, Machine.wrapTo_emod bits signed⟩
+  rw [Machine.integralMachine_eq bits signed hb, List.length_map]
+  exact Gen.integral_length w rows
+
+/-- `uint8`: 200 + 100 + 100 + 200 = 600 ↦ 88, through the intermediate 300 ↦ 44; `int8`: 100 + 100 ↦ −56 -/
+example : integralMachine 8 false 2 [[200, 100], [100, 200]] = [[200, 44], [44, 88]] ∧
+    integralMachine 8 true 2 [[100, 100], [-128, -1]] = [[100, -56], [-28, 71]] ∧
+    wrapTo 8 false 600 = 88 := by decide
+
+/-- **C19-T5 (moments: `normalize=True`, `cm=None`).** `momentsFull` transliterates `moments.py` with its options: the two
+weight vectors `p = (arange(n) − c)**pw` (nothing subtracted for `cm=None`), each divided by its sum when `normalize`, then
+`np.dot(np.dot(img, p_cols), p_rows)`. Over every field, every `R×C` image and every centre: (i) without `normalize` it is
+the round-1 model `moments`, hence the defining double sum `momentsSpec`; (ii) `cm=None` is `cm=(0,0)`; (iii) with
+`normalize` the result is the plain moment divided by `(Σ_j (j−c1)^p1)·(Σ_i (i−c0)^p0)` — "normalised to the size of the
+image": for `p0 = p1 = 0` the divisor is `C·R` — with the convention `x/0 = 0` of fields where numpy gives `inf`/`nan`. -/
+theorem C19_moments_options {α : Type} [Field α] (cast : Nat → α) (R C : Nat) (rows : List (List α)) (p0 p1 : Nat)
+    (c0 c1 : α) (hR : rows.length = R) (hC : ∀ r ∈ rows, r.length = C) :
+    momentsFull cast R C rows p0 p1 (some (c0, c1)) false = momentsSpec cast rows p0 p1 c0 c1 ∧
+    (∀ nz, momentsFull cast R C rows p0 p1 none nz = momentsFull cast R C rows p0 p1 (some (0, 0)) nz) ∧
+    momentsFull cast R C rows p0 p1 (some (c0, c1)) true =
+      momentsSpec cast rows p0 p1 c0 c1 /
+        (gsum 0 (Machine.rawWeights cast C p1 c1) * gsum 0 (Machine.rawWeights cast R p0 c0)) := by
+  have h1 := Machine.momentsFull_eq_moments cast R C rows p0 p1 c0 c1 hR hC
+  rw [Gen.moments_eq_spec] at h1
+  refine ⟨h1, fun nz => Machine.momentsFull_none cast R C rows p0 p1 nz, ?_⟩
+  rw [Machine.momentsFull_normalize, h1]
+
+/-- `[[1,2],[3,4]]`, powers (1,1), centre (0,0): plain 4; normalised 4/((0+1)(0+1)) = 4; powers (0,0): mean 10/4;
+    powers (2,0) about (1/2, 0): 5/2 divided by (1/4+1/4)·2 = 1 -/
+example : momentsFull (fun n => (n : Rat)) 2 2 [[1, 2], [3, 4]] 1 1 none true = 4 ∧
+    momentsFull (fun n => (n : Rat)) 2 2 [[1, 2], [3, 4]] 0 0 none true = 5 / 2 ∧
+    momentsFull (fun n => (n : Rat)) 2 2 [[1, 2], [3, 4]] 2 0 (some (1 / 2, 0)) true = 5 / 2 ∧
+    momentsFull (fun n => (n : Rat)) 2 2 [[1, 2], [3, 4]] 2 0 (some (1 / 2, 0)) false = 5 / 2 := by decide +kernel
+
+/-- **C19-T5 (central moments are translation invariant).** Over every commutative ring, for the model of `moments`
+(= the defining sum, `C19_moments_def_any_ring`): putting a row of zeros on top of the image and moving the centre down by
+one, or a column of zeros to its left and moving the centre right by one, leaves every moment `(p0, p1)` unchanged — so
+moments about the centre of mass do not depend on where the object sits in the frame (iterate for any integer shift). -/
+theorem C19_moments_translation {R : Type} [CommRing R] (rows : List (List R)) (n p0 p1 : Nat) (c0 c1 : R) :
+    momentsSpec (Nat.cast : Nat → R) (List.replicate n 0 :: rows) p0 p1 (c0 + 1) c1 =
+      momentsSpec Nat.cast rows p0 p1 c0 c1 ∧
+    momentsSpec (Nat.cast : Nat → R) (rows.map fun r => (0 : R) :: r) p0 p1 c0 (c1 + 1) =
+      momentsSpec Nat.cast rows p0 p1 c0 c1 := by
+  rw [← Gen.moments_eq_spec, ← Gen.moments_eq_spec, ← Gen.moments_eq_spec]
+  exact ⟨Machine.moments_shift_rows rows n p0 p1 c0 c1, Machine.moments_shift_cols rows p0 p1 c0 c1⟩
+
+example : momentsSpec (Nat.cast : Nat → Int) [[0, 0], [1, 2], [3, 4]] 2 1 (1 + 1) 0 = 2 ∧
+    momentsSpec (Nat.cast : Nat → Int) [[1, 2], [3, 4]] 2 1 1 0 = 2 ∧
+    momentsSpec (Nat.cast : Nat → Int) [[0, 1, 2], [0, 3, 4]] 2 1 1 (0 + 1) = 2 := by decide
+
+/-- **C19-T6 (Zernike radial polynomial = textbook formula).** Over every field: `fact(n)` of `_zernike.cpp` (the extracted
+table below 13, the recursion `n·fact(n−1)` beyond) is `n!` for **every** `n`; the coefficient `g_m[m]` that `znl` tabulates
+is the textbook coefficient `(−1)^m (n−m)! / (m! ((n+l)/2 − m)! ((n−l)/2 − m)!)` of `ρ^(n−2m)` for every `m ≤ (n−l)/2`; the
+inner loop of `znl` at one pixel is `R_n^l(d)·a` with `zRadial n l d = Σ_{m ≤ (n−l)/2} g_m · pow(d, n−2m)` (any `pow`);
+in characteristic 0, `R_n^n(d) = pow(d, n)`. -/
+theorem C19_zernike_radial_textbook {α : Type} [Field α] :
+    (∀ n : Nat, zfact (Nat.cast : Nat → α) n = ((n.factorial : Nat) : α)) ∧
+    (∀ n l m : Nat, 2 * m + l ≤ n →
+      zcoef (1 : α) Nat.cast n l m =
+        (-1) ^ m * ((n - m).factorial : α) /
+          ((m.factorial : α) * (((n + l) / 2 - m).factorial : α) * (((n - l) / 2 - m).factorial : α))) ∧
+    (∀ (pow : α → Nat → α) (n l : Nat) (d : α) (a : α × α),
+      zVnl 0 1 Nat.cast pow n l d a = cxScale (zRadial 0 1 Nat.cast pow n l d) a) ∧
+    (∀ (pow : α → Nat → α) (n l : Nat) (d : α),
+      zRadial 0 1 Nat.cast pow n l d =
+        ((List.range ((n - l) / 2 + 1)).map fun m => zcoef 1 Nat.cast n l m * pow d (n - 2 * m)).sum) ∧
+    (CharZero α → ∀ (pow : α → Nat → α) (n : Nat) (d : α), zRadial 0 1 Nat.cast pow n n d = pow d n) :=
+  ⟨Machine.zfact_eq_factorial, Machine.zcoef_textbook, Machine.zVnl_eq_zRadial, Machine.zRadial_eq_sum,
+   fun _ pow n d => Machine.zRadial_diag pow n d⟩
+
+/-- **C19-T6 (radial polynomials at the rim).** For every degree the factorial table covers (`n ≤ 12`, every admissible `l`):
+`R_n^l(1) = 1` over ℚ — the normalisation of the Zernike basis (`decide +kernel` on the model's `zRadial`). -/
+theorem C19_zernike_radial_at_one : ∀ n ∈ List.range 13, ∀ l ∈ List.range (n + 1), (n - l) % 2 = 0 →
+    zRadial (0 : Rat) 1 Nat.cast (fun d k => d ^ k) n l 1 = 1 := by decide +kernel
+
+/-- `R_4^2(ρ) = 4ρ⁴ − 3ρ²` at `ρ = 1/2`; `13! = 6227020800` comes from the recursion, not from the table -/
+example : zRadial (0 : Rat) 1 Nat.cast (fun d k => d ^ k) 4 2 (1 / 2) = 4 * (1 / 2) ^ 4 - 3 * (1 / 2) ^ 2 ∧
+    zfact (Nat.cast : Nat → Rat) 13 = 6227020800 ∧ zcoef (1 : Rat) Nat.cast 4 2 1 = -3 := by decide +kernel
+
 /-! non-vacuity -/
 example : coocCount [2, 3] (fun p => ([0, 1, 1, 1, 0, 1].getD (ravelI [2, 3] p) 0)) [0, 1] 1 1 = 1 ∧
     coocSym [2, 3] (fun p => ([0, 1, 1, 1, 0, 1].getD (ravelI [2, 3] p) 0)) [0, 1] 0 1 = 3 := by decide
@@ -496,3 +603,281 @@ example : entropyG 0 log2R [1 / 2, 1 / 2] = 1 := by
 /-- `uint8` arithmetic: 200 + 100 wraps to 44 -/
 example : integral 2 ([[200, 100], [100, 200]] : List (List (ZMod 256))) = [[200, 44], [44, 88]] := by decide
 example : moments (fun n => (n : Rat)) [[1, 2], [3, 4]] 2 0 (1 / 2) 0 = 5 / 2 := by decide +kernel
+
+/-! ## Round 4 (tas / haralick options / lbp sampling) -/
+
+/-- **TAS, model = counting definition.** For every image shape of rank 2 (rank 3) and every binarisation `b`, the
+integer part of `tas.py: _ctas` — `np.histogram(convolve(b.astype(uint8), M), bins)[0][:saved]` with the kernel of
+ones whose centre is 10 (28), border mode `reflect`, `bins = arange(11)` (`arange(28)`, last bin closed),
+`saved = 9` (`27`) — is, bin by bin, the number of pixels that are **not** selected by `b` and have exactly `k` selected
+pixels among their 8 (26) neighbours (`k = 0 … 8`, `0 … 26`; a neighbour outside the image is the reflected pixel).
+At every pixel the convolution value is `centre·[b p] + #selected neighbours`. -/
+theorem C19_tas_counts (s : List Nat) (b : List Int → Bool) :
+    (s.length = 2 → C19Tas.ctasCounts s b = (List.range 9).map (C19Tas.tasCount s b)) ∧
+    (s.length = 3 → C19Tas.ctasCounts s b = (List.range 27).map (C19Tas.tasCount s b)) ∧
+    (∀ w0 p, p ∈ C19Tas.boxPos s →
+      C19Tas.convAt s w0 b p = w0 * C19Tas.bit (b p) + C19Tas.nbCount s b p) :=
+  ⟨fun h => C19Tas.ctasCounts_2d s h b, fun h => C19Tas.ctasCounts_3d s h b,
+   fun w0 p hp => C19Tas.convAt_eq s w0 b p hp⟩
+
+/-- **TAS, the kept bins partition the unselected pixels**: the 9 (27) counts of `_ctas` add up to the number of pixels
+not selected by `b` (`values.sum()`, the normalisation constant of `_ctas`). -/
+theorem C19_tas_total (s : List Nat) (b : List Int → Bool) (h : s.length = 2 ∨ s.length = 3) :
+    (C19Tas.ctasCounts s b).sum = C19Tas.offCount s b := by
+  rcases h with h | h
+  · rw [C19Tas.ctasCounts_2d s h b]
+    exact C19Tas.tasCount_sum s b 8 (by rw [h]; exact C19Tas.nb_len2)
+  · rw [C19Tas.ctasCounts_3d s h b]
+    exact C19Tas.tasCount_sum s b 26 (by rw [h]; exact C19Tas.nb_len3)
+
+/-- **TAS, normalisation** (`values / float(s)` when `s > 0`): over any ordered field every entry of `_ctas` lies in
+`[0, 1]`; the entries sum to 1 when some pixel is not selected; when every pixel is selected all entries are 0. The
+model's `ctas` is this definition at the scalar type (the driver runs it at `Float`). -/
+theorem C19_tas_normalised {α : Type} [Field α] [LinearOrder α] [IsStrictOrderedRing α]
+    (s : List Nat) (b : List Int → Bool) (h : s.length = 2 ∨ s.length = 3) :
+    (∀ x ∈ C19Tas.ctas (Nat.cast : Nat → α) s b, 0 ≤ x ∧ x ≤ 1) ∧
+    (0 < C19Tas.offCount s b → (C19Tas.ctas (Nat.cast : Nat → α) s b).sum = 1) ∧
+    (C19Tas.offCount s b = 0 → ∀ x ∈ C19Tas.ctas (Nat.cast : Nat → α) s b, x = 0) := by
+  have ht := C19_tas_total s b h
+  refine ⟨fun x hx => C19Tas.normalise_mem _ x hx, fun hpos => ?_, fun hz x hx => ?_⟩
+  · exact C19Tas.normalise_sum _ (by rw [ht]; exact hpos)
+  · exact C19Tas.normalise_zero _ (by rw [ht]; exact hz) x hx
+
+/-- **TAS, the complement half is Hamilton's statistic.** `_tas` also evaluates `_ctas` on `~b`. Bin `k` of that half
+is the number of pixels **selected** by `b` that have exactly `N − k` selected neighbours (`N = 8`, `26`): the
+threshold adjacency statistic of Hamilton et al. with the bin order reversed. (The half computed on `b` itself counts
+the unselected pixels by selected neighbours — theorem `C19_tas_counts`.) -/
+theorem C19_tas_complement (s : List Nat) (b : List Int → Bool) :
+    (s.length = 2 → C19Tas.ctasCounts s (fun p => !b p)
+        = (List.range 9).map fun k => C19Tas.hamiltonCount s b (8 - k)) ∧
+    (s.length = 3 → C19Tas.ctasCounts s (fun p => !b p)
+        = (List.range 27).map fun k => C19Tas.hamiltonCount s b (26 - k)) := by
+  constructor
+  · intro h
+    rw [C19Tas.ctasCounts_2d s h]
+    apply List.map_congr_left
+    intro k hk
+    have hk9 : k < 9 := by simpa using hk
+    exact C19Tas.tasCount_not s b 8 k (by rw [h]; exact C19Tas.nb_len2) (by omega)
+  · intro h
+    rw [C19Tas.ctasCounts_3d s h]
+    apply List.map_congr_left
+    intro k hk
+    have hk27 : k < 27 := by simpa using hk
+    exact C19Tas.tasCount_not s b 26 k (by rw [h]; exact C19Tas.nb_len3) (by omega)
+
+/-- a 2×3 image with one selected pixel in a corner: the corner sees itself three times through the reflecting border -/
+example :
+    let b : List Int → Bool := fun p => p == [0, 0]
+    C19Tas.ctasCounts [2, 3] b = [2, 1, 2, 0, 0, 0, 0, 0, 0] ∧
+    C19Tas.ctasCounts [2, 3] (fun p => !b p) = [0, 0, 0, 0, 0, 1, 0, 0, 0] ∧
+    C19Tas.hamiltonCount [2, 3] b 3 = 1 ∧ C19Tas.offCount [2, 3] b = 5 ∧
+    C19Tas.ctas (Nat.cast : Nat → Rat) [2, 3] b = [2 / 5, 1 / 5, 2 / 5, 0, 0, 0, 0, 0, 0] := by
+  decide +kernel
+example : (C19Tas.ctasCounts [2, 2, 2] (fun p => p == [0, 0, 0])).sum = 7 := by decide +kernel
+
+/-- **haralick options `ignore_zeros`, `distance`, 3-D directions on the count matrix.** For every image (rank 2 or 3
+or any other) with values in `[0, m)`, every direction index `dir`, every `distance` and all levels `a, b < m`: the matrix
+the driver normalises for `haralick(f, ignore_zeros=True, distance=dist)` — `stripZeros` (`cmat[0] = 0; cmat[:,0] = 0`)
+of the symmetric fold of the `_texture.cpp` scan with the offset `direction nd dir dist` — has entry `(a, b)` equal to
+0 when `a = 0` or `b = 0`, and otherwise to the number of ordered pixel pairs `(p, p ± dist·δ_dir)` inside the image
+with values `(a, b)`: the co-occurrence matrix with row and column 0 removed, of the direction vector scaled by the
+distance (`δ_dir` = row `dir` of the extracted `_2d_deltas` / `_3d_deltas`, 4 / 13 rows). -/
+theorem C19_haralick_ignore_zeros_distance (m : Nat) (im : Img Int) (dir : Nat) (dist : Int)
+    (hv : ∀ p, 0 ≤ im.getD p 0 ∧ im.getD p 0 < (m : Int)) (a b : Nat) (ha : a < m) (hb : b < m) :
+    direction im.shape.length dir dist
+      = ((if im.shape.length == 2 then deltas2d else deltas3d).getD dir []).map (· * dist) ∧
+    (stripZeros m (symFold m (coocModel m im (direction im.shape.length dir dist))).toList).getD (a * m + b) 0
+      = (if a = 0 ∨ b = 0 then 0
+         else coocSym im.shape (fun p => im.getD p 0) (direction im.shape.length dir dist) a b) ∧
+    deltas2d.length = 4 ∧ deltas3d.length = 13 := by
+  refine ⟨rfl, ?_, by decide, by decide⟩
+  rw [stripZeros_getD m _ a b ha hb]
+  split
+  · rfl
+  · rw [← (C19_cooc_counts m im _ hv).2.2 a b ha hb |>.2, Array.getD_eq_getD_getElem?, List.getD_eq_getElem?_getD,
+      Array.getElem?_toList]
+
+/-- **haralick, 14th feature: Haralick's matrix `Q`.** Over any ordered field, for every `m × m` count matrix with a
+non-zero total and `p = c/Σc`: the model's `Q(i,j) = Σ_k p(i,k) p(j,k) / (p_x(i) p_y(k))` (terms of empty rows/columns
+dropped; the driver evaluates the same definition at `Float`) has non-negative entries; every row `i` whose marginal
+`p_x(i)` is not zero sums to 1 — `Q·1 = 1` on the occupied levels, so 1 is an eigenvalue of `Q` (of a non-negative
+row-stochastic matrix: the largest one, which is why feature 14 takes the *second* largest); and `Q` is reversible with
+respect to the row marginal, `p_x(i)·Q(i,j) = p_x(j)·Q(j,i)`, i.e. `Q` is similar to the symmetric matrix whose
+eigenvalues `texture.py` computes, so its eigenvalues are real. (No eigenvalue algorithm is modelled: the square root of
+the second largest eigenvalue of the model's `Q` is taken numerically by the harness and compared with the real output.) -/
+theorem C19_haralick_Q {α : Type} [Field α] [LinearOrder α] [IsStrictOrderedRing α]
+    (m : Nat) (c : List Nat) (hlen : c.length = m * m) (hT : c.sum ≠ 0) :
+    let P := matAt (0 : α) m (normMat (Nat.cast : Nat → α) c)
+    (∀ i < m, ∀ j < m, 0 ≤ qMatG (0 : α) m P i j) ∧
+    (∀ i < m, (∑ l ∈ Finset.range m, P i l) ≠ 0 → ∑ j ∈ Finset.range m, qMatG (0 : α) m P i j = 1) ∧
+    (∀ i < m, ∀ j < m, (∑ l ∈ Finset.range m, P i l) * qMatG (0 : α) m P i j
+        = (∑ l ∈ Finset.range m, P j l) * qMatG (0 : α) m P j i) ∧
+    (∀ i < m, (rowSumG (0 : α) m P).getD i 0 = ∑ l ∈ Finset.range m, P i l) := by
+  intro P
+  have hP : ∀ i < m, ∀ j < m, 0 ≤ P i j := fun i _ j _ => normMat_nonneg c _
+  have _ := hlen; have _ := hT
+  exact ⟨fun i hi j hj => qMat_nonneg m P hP i j hi hj, fun i hi hr => qMat_row_sum m P hP i hi hr,
+    fun i hi j hj => qMat_reversible m P hP i j hi hj, fun i hi => rowSum_getD m P i hi⟩
+
+/-- the count matrix `[[1,2],[2,3]]`: `Q = [[17/45, 28/45], [28/75, 47/75]]` (rows sum to 1, `3·(28/45) = 5·(28/75)`);
+    a matrix with an empty level keeps a zero row -/
+example :
+    let P := matAt (0 : Rat) 2 (normMat (Nat.cast : Nat → Rat) [1, 2, 2, 3])
+    (allPairs 2).map (fun ij => qMatG (0 : Rat) 2 P ij.1 ij.2) = [17 / 45, 28 / 45, 28 / 75, 47 / 75] := by
+  decide +kernel
+example :
+    let P := matAt (0 : Rat) 2 (normMat (Nat.cast : Nat → Rat) [0, 0, 0, 3])
+    (allPairs 2).map (fun ij => qMatG (0 : Rat) 2 P ij.1 ij.2) = [0, 0, 0, 1] := by
+  decide +kernel
+example : stripZeros 2 [5, 1, 1, 3] = [0, 0, 0, 3] ∧ direction 2 3 2 = [2, -2] ∧ direction 3 12 3 = [3, -3, -3] := by
+  decide +kernel
+
+/-- **LBP sampling (`lbp_transform`).** Over any ordered field with a floor function, for every 2-D image, radius, list
+of `(sin, cos)` pairs (any number `P` of points) and every pixel `p` of the image, with the model of C18 for
+`interpolate.shift(image, [radius·dy, radius·dx], order=1)` (mode `constant`, `cval = 0`):
+(1) the raw code `Σ_i [sample_i(p) > image(p)]·2^i` is a `P`-bit number;
+(2) its bit `i` is set exactly when the `i`-th shifted image is brighter at `p` than the centre pixel, the shifted image
+    being the order-1 `zoom_shift` pixel of C18 at the coordinate `p − radius·(dy_i, dx_i)`;
+(3) wherever that coordinate lies inside the image the sample is the bilinear interpolation of the four surrounding
+    pixels (`C18.multilinear`, theorem `C18_fractional_order1_is_linear_nd`);
+(4) turning the sampling pattern by one angular step (first sample moved to the end) rotates the raw code
+    (`roll_right`), hence the code `_lbp.map` returns — the one `lbp_transform` outputs and `lbp` counts — is unchanged. -/
+theorem C19_lbp_sampling {K : Type} [Field K] [LinearOrder K] [IsStrictOrderedRing K]
+    {fl : K → Int} (h : C18.IsFloor fl) (im : Img K) (r : K) (dydx : List (K × K)) (p : List Int)
+    (hp : inside im.shape p = true) (hs : im.shape.length = 2) :
+    let bits := C19Lbp.bitsAt im (dydx.map (C19Lbp.sample fl im r)) p
+    C19Lbp.codeOfBits bits < 2 ^ dydx.length ∧
+    (∀ i (hi : i < dydx.length), (C19Lbp.codeOfBits bits).testBit i
+        = decide (im.getD p 0 < C18.pixel fl 1 .constant 0 im
+            [some (-(r * dydx[i].1)), some (-(r * dydx[i].2))] [none, none] p)) ∧
+    (∀ d : K × K,
+      C18.InRange im.shape (List.zipWith (fun (kk : Int) (s : K) => (kk : K) - s) p [r * d.1, r * d.2]) →
+      C18.pixel fl 1 .constant 0 im [some (-(r * d.1)), some (-(r * d.2))] [none, none] p
+        = C18.multilinear fl (fun pos => im.getD pos 0) im.shape
+            (List.zipWith (fun (kk : Int) (s : K) => (kk : K) - s) p [r * d.1, r * d.2])) ∧
+    (∀ b rest, bits = b :: rest →
+      lbpMap dydx.length (C19Lbp.codeOfBits (rest ++ [b])) = lbpMap dydx.length (C19Lbp.codeOfBits bits)) := by
+  intro bits
+  have hlen : bits.length = dydx.length := by simp [bits, C19Lbp.bitsAt]
+  refine ⟨by rw [← hlen]; exact C19Lbp.codeOfBits_lt bits, ?_, ?_, ?_⟩
+  · intro i hi
+    rw [C19Lbp.testBit_codeOfBits, C19Lbp.bitsAt_getD im _ p i (by simpa using hi)]
+    rw [List.getD_eq_getElem?_getD, List.getElem?_map, List.getElem?_eq_getElem hi]
+    simp only [Option.map_some, Option.getD_some, C19Lbp.sample_getD fl im r _ p hp]
+  · intro d hr
+    have hpl : p.length = 2 := by rw [inside_length hp, hs]
+    have hc := (C18_shift_coordinate_map fl 1 .constant 0 im [r * d.1, r * d.2] p
+      (C19Lbp.inside_nonneg _ _ hp) (by rw [hs, hpl]) (by rw [hpl]; rfl)).2
+    have hmap : ([r * d.1, r * d.2].map fun s => some (-s)) = [some (-(r * d.1)), some (-(r * d.2))] := rfl
+    have hnone : ([r * d.1, r * d.2].map fun _ => (none : Option K)) = [none, none] := rfl
+    rw [hmap, hnone] at hc
+    rw [← hc] at hr ⊢
+    exact C18_fractional_order1_is_linear_nd h .constant 0 im _ _ p hr
+  · intro b rest hb
+    have hl : dydx.length = rest.length + 1 := by rw [← hlen, hb]; rfl
+    rw [hb, hl]
+    exact C19Lbp.lbpMap_rotate b rest
+
+/-- a 3×3 ramp, radius 1, the four axis directions with exact sines/cosines: the centre pixel sees its four neighbours
+    (`image[p − (dy, dx)]`, 0 outside the image), the brighter ones set their bit; rotating the pattern keeps the mapped code -/
+example :
+    let im : Img Rat := { shape := [3, 3], data := #[1, 2, 3, 4, 5, 6, 7, 8, 9] }
+    let dydx : List (Rat × Rat) := [(0, 1), (1, 0), (0, -1), (-1, 0)]
+    C19Lbp.rawCodes (fun x => x.floor) im 1 dydx false = [12, 12, 8, 12, 12, 8, 4, 4, 0] ∧
+    C19Lbp.rawCodes (fun x => x.floor) im (1 / 2) dydx false = [12, 12, 8, 12, 12, 8, 4, 4, 0] ∧
+    (C19Lbp.rawCodes (fun x => x.floor) im 1 dydx false).map (lbpMap 4) = [3, 3, 1, 3, 3, 1, 1, 1, 0] := by
+  decide +kernel
+
+/-- **haralick `return_mean` / `return_mean_ptp`.** Over any ordered field, for every non-empty feature matrix (one row
+per direction, all rows of width `w`) and every column `j < w`: the model of `features.mean(axis=0)` (rows added in
+order, one division by the number of rows; the driver runs it at `Float` on the real feature matrix and must reproduce
+the real output bit for bit) is the arithmetic mean of the column; the model of `np.ptp(features, axis=0)` is
+`hi − lo` for two entries `hi`, `lo` of the column that bound every entry; hence `lo ≤ mean ≤ hi`, `ptp ≥ 0`, and
+`ptp = 0` exactly when the feature takes the same value in every direction (then that value is the mean). -/
+theorem C19_haralick_mean_ptp {α : Type} [Field α] [LinearOrder α] [IsStrictOrderedRing α]
+    (w : Nat) (r0 : List α) (rest : List (List α)) (h0 : r0.length = w) (hr : ∀ r ∈ rest, r.length = w)
+    (j : Nat) (hj : j < w) :
+    let rows := r0 :: rest
+    let col := rows.map (·.getD j 0)
+    let mean := (colMeanG (Nat.cast : Nat → α) rows).getD j 0
+    let ptp := (colPtpG rows).getD j 0
+    mean = col.sum / (rows.length : α) ∧
+    ∃ hi ∈ col, ∃ lo ∈ col, (∀ x ∈ col, lo ≤ x ∧ x ≤ hi) ∧ ptp = hi - lo ∧ lo ≤ mean ∧ mean ≤ hi ∧ 0 ≤ ptp ∧
+      (ptp = 0 → ∀ x ∈ col, x = mean) :=
+  col_mean_ptp w r0 rest h0 hr j hj
+
+/-- **haralick marginals.** Over any ordered field, for every `m × m` count matrix with a non-zero total: the marginals
+`p_x = p.sum(0)` and `p_y = p.sum(1)` of `haralick13` (`colSumG`, `rowSumG` of the normalised matrix) are probability
+vectors — entries in `[0, 1]`, each summing to 1. -/
+theorem C19_haralick_marginals {α : Type} [Field α] [LinearOrder α] [IsStrictOrderedRing α]
+    (m : Nat) (c : List Nat) (hlen : c.length = m * m) (hT : c.sum ≠ 0) :
+    let P := matAt (0 : α) m (normMat (Nat.cast : Nat → α) c)
+    ∑ k ∈ Finset.range m, (rowSumG (0 : α) m P).getD k 0 = 1 ∧ ∑ k ∈ Finset.range m, (colSumG (0 : α) m P).getD k 0 = 1 ∧
+    (∀ k < m, 0 ≤ (rowSumG (0 : α) m P).getD k 0 ∧ (rowSumG (0 : α) m P).getD k 0 ≤ 1) ∧
+    (∀ k < m, 0 ≤ (colSumG (0 : α) m P).getD k 0 ∧ (colSumG (0 : α) m P).getD k 0 ≤ 1) :=
+  marginals_sum m c hlen hT
+
+example : colMeanG (Nat.cast : Nat → Rat) [[1, 5], [3, 5], [8, 5]] = [4, 5] ∧
+    colPtpG ([[1, 5], [3, 5], [8, 5]] : List (List Rat)) = [7, 0] := by decide +kernel
+example :
+    let P := matAt (0 : Rat) 2 (normMat (Nat.cast : Nat → Rat) [1, 2, 2, 3])
+    rowSumG (0 : Rat) 2 P = [3 / 8, 5 / 8] ∧ colSumG (0 : Rat) 2 P = [3 / 8, 5 / 8] := by decide +kernel
+
+/-- **haralick, 14th feature: `Q` has no negative eigenvalue.** Over any ordered field, for every count matrix with a
+non-zero total, `p = c/Σc` and every vector `x`: the quadratic form of `Q` weighted by the row marginal is a sum of
+squares, `Σ_i Σ_j p_x(i) Q(i,j) x_i x_j = Σ_k (Σ_i p(i,k) x_i)² / p_y(k) ≥ 0` (`k` over the occupied columns). Together
+with `C19_haralick_Q` (reversible, row-stochastic, non-negative): every eigenvalue of `Q` is real and `≥ 0`, so the
+square root `texture.py` takes of the second largest one is defined (the `max(0, ·)` guard only absorbs rounding). -/
+theorem C19_haralick_Q_psd {α : Type} [Field α] [LinearOrder α] [IsStrictOrderedRing α]
+    (m : Nat) (c : List Nat) (x : Nat → α) :
+    let P := matAt (0 : α) m (normMat (Nat.cast : Nat → α) c)
+    ∑ i ∈ Finset.range m, ∑ j ∈ Finset.range m, (∑ l ∈ Finset.range m, P i l) * qMatG (0 : α) m P i j * (x i * x j)
+      = ∑ k ∈ Finset.range m, (if (∑ l ∈ Finset.range m, P l k) = 0 then 0
+          else (∑ i ∈ Finset.range m, P i k * x i) ^ 2 / (∑ l ∈ Finset.range m, P l k)) ∧
+    0 ≤ ∑ i ∈ Finset.range m, ∑ j ∈ Finset.range m, (∑ l ∈ Finset.range m, P i l) * qMatG (0 : α) m P i j * (x i * x j) := by
+  intro P
+  exact qMat_psd m P (fun i _ j _ => normMat_nonneg c _) x
+
+/-- the count matrix `[[1,2],[2,3]]` and `x = (1, −1)`: `3/8·(17/45 − 28/45) + 5/8·(47/75 − 28/75) = 1/15 = (1/8−2/8)²/(3/8) + (2/8−3/8)²/(5/8)` -/
+example :
+    let P := matAt (0 : Rat) 2 (normMat (Nat.cast : Nat → Rat) [1, 2, 2, 3])
+    let x : Nat → Rat := fun i => if i = 0 then 1 else -1
+    ∑ i ∈ Finset.range 2, ∑ j ∈ Finset.range 2, (∑ l ∈ Finset.range 2, P i l) * qMatG (0 : Rat) 2 P i j * (x i * x j) = 1 / 15 := by
+  decide +kernel
+
+/-- **TAS, the border rule is `fix_offset(ExtendReflect)`.** The model of `_ctas` folds a window position one step outside
+an axis of length `n ≥ 1` with `reflect1` (`−1 ↦ 0`, `n ↦ n−1`); for every index the 3-wide window can produce
+(`−1 ≤ i ≤ n`) this is exactly what the shared transliteration of `_filters.cpp: fix_offset` returns for the mode
+`reflect` that `convolve` uses by default (`Model/Border.lean: fixOffset`, the border model of C01–C03). -/
+theorem C19_tas_border_is_reflect (n : Nat) (hn : 1 ≤ n) (i : Int) (h0 : -1 ≤ i) (h1 : i ≤ n) :
+    fixOffset .reflect i n = some (C19Tas.reflect1 n i) :=
+  C19Tas.reflect1_eq_fixOffset n hn i h0 h1
+
+example : C19Tas.reflect1 5 (-1) = 0 ∧ C19Tas.reflect1 5 5 = 4 ∧ C19Tas.reflect1 5 3 = 3 ∧ C19Tas.reflect1 1 1 = 0 ∧
+    fixOffset .reflect 5 5 = some 4 := by decide
+
+/-- **haralick, 14th feature: the spectrum of `Q` lies in `[0, 1]`.** Over any ordered field, for every count matrix,
+`p = c/Σc`: the Rayleigh quotient of `Q` in the inner product weighted by the row marginal is at most 1,
+`Σ_i Σ_j p_x(i) Q(i,j) x_i x_j ≤ Σ_i p_x(i) x_i²` (weighted Cauchy–Schwarz per column), and therefore every eigenvalue
+`λ` of `Q` (`Q x = λ x` with an eigenvector not supported on empty levels only) satisfies `0 ≤ λ ≤ 1`. Together with
+`C19_haralick_Q` (`Q·1 = 1`): 1 is the largest eigenvalue and the maximal correlation coefficient — the square root of
+the second largest — lies in `[0, 1]` (the value 1.2247 returned before fix `73cd2a6` was impossible). -/
+theorem C19_haralick_Q_spectrum {α : Type} [Field α] [LinearOrder α] [IsStrictOrderedRing α]
+    (m : Nat) (c : List Nat) (x : Nat → α) :
+    let P := matAt (0 : α) m (normMat (Nat.cast : Nat → α) c)
+    (∑ i ∈ Finset.range m, ∑ j ∈ Finset.range m, (∑ l ∈ Finset.range m, P i l) * qMatG (0 : α) m P i j * (x i * x j)
+      ≤ ∑ i ∈ Finset.range m, (∑ l ∈ Finset.range m, P i l) * x i ^ 2) ∧
+    (∀ lam : α, (∀ i < m, ∑ j ∈ Finset.range m, qMatG (0 : α) m P i j * x j = lam * x i) →
+      0 < ∑ i ∈ Finset.range m, (∑ l ∈ Finset.range m, P i l) * x i ^ 2 → 0 ≤ lam ∧ lam ≤ 1) := by
+  intro P
+  have hP : ∀ i < m, ∀ j < m, 0 ≤ P i j := fun i _ j _ => normMat_nonneg c _
+  exact ⟨qMat_le_one m P hP x, fun lam hx hS => qMat_eigenvalue_bounds m P hP x lam hx hS⟩
+
+/-- the count matrix `[[1,2],[2,3]]`: `x = (5, −3)` is an eigenvector of `Q` with eigenvalue `1/225` (and `(1,1)` with 1) -/
+example :
+    let P := matAt (0 : Rat) 2 (normMat (Nat.cast : Nat → Rat) [1, 2, 2, 3])
+    let x : Nat → Rat := fun i => if i = 0 then 5 else -3
+    (∀ i < 2, ∑ j ∈ Finset.range 2, qMatG (0 : Rat) 2 P i j * x j = 1 / 225 * x i) ∧
+    (∀ i < 2, ∑ j ∈ Finset.range 2, qMatG (0 : Rat) 2 P i j * 1 = 1) := by
+  decide +kernel
